@@ -1791,9 +1791,9 @@ def analyse_positive(ctx, want_props):
             ctx.ob(set(want_props), cname + "|driver_errors", None, "driver errors: %s" % cr["errors"][:2])
         if "C18" in want_props:
             check_regime(ctx, cr, cname)
-        for d in decls:
+        def judge_decl(d):
             if d.get("skip"):
-                continue
+                return
             if d["kind"] == "enum":
                 if want_props & {"C07", "C10"}:
                     check_enum(ctx, cr, d)
@@ -1801,9 +1801,9 @@ def analyse_positive(ctx, want_props):
                     check_total(ctx, cr, d)
                 if "C15" in want_props:
                     check_const(ctx, cr, d)
-                continue
+                return
             if d["kind"] != "struct":
-                continue
+                return
             if want_props & {"C01", "C03", "C04", "C05", "C08", "C12"} or ("C16" in want_props and any(f["array"] for f in d["fields"])):
                 for f in d["fields"]:
                     if "C16" in want_props and len(want_props) == 1 and not f["array"]:
@@ -1834,3 +1834,11 @@ def analyse_positive(ctx, want_props):
                 check_c11(ctx, cr, d)
             if "C16" in want_props:
                 check_total(ctx, cr, d)
+
+        for d in decls:
+            try:
+                judge_decl(d)
+            except Exception as exc:  # an internal error on one declaration must not take the other verdicts with it
+                import traceback
+                ctx.ob(set(want_props), "%s|judge_internal_error" % d.get("path"), None,
+                       "internal error while judging this declaration: %r at %s" % (exc, traceback.format_exc().strip().splitlines()[-3].strip()[:120]))
